@@ -356,6 +356,8 @@ def main(ctx):
     rng = ctx.rng
     ctx.proof = common.check_proofs('C03', extra_targets=['Model/StoreMpsCheck.vo'])
     mult = 3 if not ctx.proof.ok else 1
+    import c03_mpsobj
+    mpsobj_handle = c03_mpsobj.start(ctx, mult=mult)     # stream mps-object: runs in the background next to the other streams
     nh = ctx.pick(600, 5000) * mult
     cases = [c['case'] for c in common.corpus_cases('C03') if c.get('stream') == 'history']
     replay_doc = None
@@ -479,6 +481,8 @@ def main(ctx):
     # ---- MPS-level histories (constructor, get_B, set_B, measurements, in-place methods on returned tensors) <-> Model/StoreMps.v
     import c03_mpshist
     c03_mpshist.run_stream(ctx, mult=mult)
+    # ---- whole-object fingerprints of every live MPS/MPO around every public call (finite, infinite, segment; charge sectors/gauges)
+    c03_mpsobj.finish(ctx, mpsobj_handle)
     ctx.assumptions += [
         'C03 store model (coq/Model/Store.v): ten heap transformers (new, copy deep/shallow, buffer-writing and rebinding in-place methods, '
         'iproject, unary copy-then-modify, scale_axis, add, tensordot); all other tenpy operations are mapped to the nearest of them in '
@@ -491,7 +495,7 @@ def main(ctx):
         'astype(copy=False); MPS.get_B / MPO.get_W with copy=False, MPO.copy (shallow); MPS.get_SL/get_SR return the stored singular values '
         'themselves (plain accessors, no copy is claimed).  Every other common memory between a result and a live tensor is a violation',
     ]
-    return ctx.finish(RULE, 'frame theorems on the store model for all heaps/aliasing patterns; every history is replayed on the model and judged by '
+    return ctx.finish(RULE + '  ' + c03_mpsobj.RULE, 'frame theorems on the store model for all heaps/aliasing patterns; every history is replayed on the model and judged by '
                       'fingerprints of all live objects in both configurations')
 
 
